@@ -20,10 +20,33 @@ def _kw():
 def correspondence(ctx):
     kw, styles = _kw()
     acc = (lambda p: p['style'] in styles) if styles else None
-    return FL.correspondence(ctx, PID, kw, 60, 1500, accept=acc)
+    return FL.correspondence(ctx, PID, kw, 60, 1500, accept=acc, extra_progs=designed(ctx.rng, ctx.n(6, 60)))
 
 
 def oracle(ctx, budget=1, replay=None, hints=None):
     kw, styles = _kw()
     acc = (lambda p: p['style'] in styles) if styles else None
-    return FL.oracle(ctx, PID, [O.check_C04], kw, 150 * budget, accept=acc, replay=replay)
+    return FL.oracle(ctx, PID, [O.check_C04], kw, 150 * budget, accept=acc, replay=replay, extra_progs=designed(ctx.rng, 10 * budget))
+
+
+def designed(rng, n):
+    """the machine is homed again in the middle of a job (sequential printing: `G28`, `G28 W`, `G28 X Y`, `G28 Z`), the extruder coordinate is not
+    touched by homing; afterwards a region is crossed by travel moves only, so the E value the filter sends is the one it tracked across the homing"""
+    from fractions import Fraction as F
+    import genprog
+    R = [('rect', 'a', F(10), F(10), F(20), F(20))]
+    out = []
+    for _ in range(n):
+        e = rng.choice(['2', '0.75', '12.5'])
+        L = rng.choice(['1', '0.8'])
+        lines = ['G28', 'G1 X5 Y5 Z0.3 F3000', 'G1 X6 Y5 E%s F1200' % e]
+        owed = rng.random() < 0.5
+        if owed:
+            lines.append('G1 E%g F2400' % (float(e) - float(L)))
+        lines.append(rng.choice(['G28', 'G28', 'G28 W', 'G28 X Y', 'G28 Z', 'G28 X']))
+        lines += ['G1 X15 Y15 F3000']
+        if owed:
+            lines.append('G1 E%s F2400' % e)               # the recovery, inside the region: skipped, owed
+        lines += ['G1 X30 Y30 F3000', 'G1 X31 Y30 E%g F1200' % (float(e) + 1)]
+        out.append(dict(g90e=False, enter=None, exit=None, ext=dict(genprog.DEFAULT_EXT), regions=R, events=[('cmd', l) for l in lines], style='eonly', alen=L))
+    return out
